@@ -31,6 +31,7 @@ REQ = ['Model.Framer', 'Gen.C02Tables']
 # independently of bumble: type -> (bytes before the length field, size of the length field)
 SPEC = {1: (2, 1), 2: (2, 2), 3: (2, 1), 4: (1, 1), 5: (2, 2)}
 VALID_TYPES = sorted(SPEC)
+SERVERS = ['tcp_server', 'unix', 'ws_server', 'android_netsim']
 PROBE = [4, 0, 0]          # an empty event, used to observe "is the framer at a boundary"
 
 
@@ -413,7 +414,62 @@ async def _open_server(transport_name):
         with mock.patch.object(websockets.asyncio.server, 'serve', fake_serve):
             t = await ws_server.open_ws_server_transport('_:9002')
         return t, None
+    if transport_name == 'android_netsim':
+        import grpc.aio
+        from bumble.transport import android_netsim
+
+        fake_server = mock.MagicMock()
+        fake_server.start = mock.AsyncMock()
+        fake_server.stop = mock.AsyncMock()
+        never = loop.create_future()
+
+        async def wait_for_termination():
+            await never
+        fake_server.wait_for_termination = wait_for_termination
+        fake_server.add_insecure_port.return_value = 1
+        with mock.patch.object(grpc.aio, 'server', return_value=fake_server), \
+                mock.patch.object(android_netsim, 'publish_grpc_port', return_value=True), \
+                mock.patch.object(android_netsim, 'add_PacketStreamerServicer_to_server'):
+            t = await android_netsim.open_android_netsim_controller_transport(None, 0, {})
+        return t, None
     raise ValueError(transport_name)
+
+
+MESSAGE_SERVERS = ('ws_server', 'android_netsim')     # an InvalidPacketError ends the client's handler
+
+
+class FakeNetsimContext:
+    """stands in for the gRPC servicer context of one StreamPackets call"""
+
+    def __init__(self, requests, rec, marks):
+        self.requests = list(requests)
+        self.rec = rec
+        self.marks = marks
+        self.written = []
+
+    async def read(self):
+        import grpc.aio
+        await asyncio.sleep(0)
+        if self.marks is not None and self.started:
+            self.marks.append(len(self.rec.packets))
+        self.started = True
+        return self.requests.pop(0) if self.requests else grpc.aio.EOF
+
+    started = False
+
+    async def write(self, response):
+        self.written.append(response)
+
+
+def netsim_requests(chunks):
+    from bumble.transport.grpc_protobuf.netsim.common_pb2 import ChipKind
+    from bumble.transport.grpc_protobuf.netsim.hci_packet_pb2 import HCIPacket
+    from bumble.transport.grpc_protobuf.netsim.packet_streamer_pb2 import PacketRequest
+    from bumble.transport.grpc_protobuf.netsim.startup_pb2 import Chip, ChipInfo
+    reqs = [PacketRequest(initial_info=ChipInfo(name='verif', chip=Chip(kind=ChipKind.BLUETOOTH)))]
+    for c in chunks:
+        reqs.append(PacketRequest(hci_packet=HCIPacket(packet_type=c[0], packet=bytes(c[1:]))))
+    return reqs
 
 
 class FakeWsConnection:
@@ -450,6 +506,37 @@ def client_chunks(cl):
     return cut(cl['sizes'], data)
 
 
+def server_plan(clients):
+    """The order of protocol callbacks for tcp/unix: ('C', k) connection_made, ('D', k, j)
+    data_received of chunk j, ('E', k) eof_received, ('L', k) connection_lost.  A client
+    with late_lost = 1 / 2 has its eof/lost callbacks delivered after the NEXT client's
+    connection_made / first data (two clients overlapping in the event loop)."""
+    plan = []
+    pending = []                      # deferred E/L steps of the previous client
+    for k, cl in enumerate(clients):
+        n = len(client_chunks(cl))
+        post = ([('E', k)] if cl.get('eof') else []) + [('L', k)]
+        plan.append(('C', k))
+        mode = pending[0] if pending else 0
+        if pending and mode == 1:
+            plan.extend(pending[1])
+            pending = []
+        for j in range(n):
+            plan.append(('D', k, j))
+            if pending and j == 0:
+                plan.extend(pending[1])
+                pending = []
+        if pending:
+            plan.extend(pending[1])
+            pending = []
+        late = cl.get('late_lost', 0) if k + 1 < len(clients) else 0
+        if late:
+            pending = [late, post]
+        else:
+            plan.extend(post)
+    return plan
+
+
 def impl_server(transport_name, clients):
     """Drive the real server protocol objects; returns per client the per-chunk packets
     delivered to the host-side sink."""
@@ -459,114 +546,171 @@ def impl_server(transport_name, clients):
         t.source.set_packet_sink(rec)
         res = []
         try:
-            for cl in clients:
-                chunks = client_chunks(cl)
-                per_chunk = []
-                if transport_name == 'ws_server':
-                    msgs = []
-                    is_text = []
-                    for k, c in enumerate(chunks):
-                        if k in cl.get('text_before', []):
-                            msgs.append('text frame')
-                            is_text.append(True)
-                        msgs.append(bytes(c))
-                        is_text.append(False)
-                    marks = []
-                    conn = FakeWsConnection(msgs, rec, marks, cl.get('abrupt', False))
-                    err = None
-                    try:
-                        await t.on_connection(conn)
-                    except Exception as e:           # noqa: BLE001
-                        err = classify_exc(e)
-                    marks.append(len(rec.packets))
-                    # marks[k] = packets seen before message k was handed over
-                    for k in range(len(msgs)):
-                        if k + 1 < len(marks):
-                            row = [['P', p] for p in rec.packets[marks[k]:marks[k + 1]]]
-                        else:
-                            row = None                  # never read (handler ended)
-                        if is_text[k]:
-                            if row:
-                                per_chunk.append([['TextProducedOutput']])
-                            continue
-                        per_chunk.append(row)
-                    if err:
-                        # attach to the last message that was read
-                        read = [r for r in per_chunk if r is not None]
-                        if read:
-                            read[-1].append([err])
-                        else:
-                            per_chunk.append([[err]])
-                    per_chunk = [r for r in per_chunk if r is not None]
-                else:
-                    proto = factory()
-                    tr = mock.MagicMock()
-                    proto.connection_made(tr)
-                    for c in chunks:
+            if transport_name in MESSAGE_SERVERS:
+                for cl in clients:
+                    res.append(await one_message_client(t, rec, cl))
+            else:
+                chunks = [client_chunks(cl) for cl in clients]
+                res = [[None] * len(c) for c in chunks]
+                protos = {}
+                for step in server_plan(clients):
+                    k = step[1]
+                    if step[0] == 'C':
+                        protos[k] = factory()
+                        protos[k].connection_made(mock.MagicMock())
+                    elif step[0] == 'D':
                         before = len(rec.packets)
                         err = None
                         try:
-                            proto.data_received(bytes(c))
+                            protos[k].data_received(bytes(chunks[k][step[2]]))
                         except Exception as e:           # noqa: BLE001
                             err = 'Escaped:' + type(e).__name__
                         row = [['P', p] for p in rec.packets[before:]]
                         if err:
                             row.append([err])
-                        per_chunk.append(row)
-                    if cl.get('eof'):
-                        proto.eof_received()
-                    proto.connection_lost(None)
-                res.append(per_chunk)
+                        res[k][step[2]] = row
+                    elif step[0] == 'E':
+                        protos[k].eof_received()
+                    else:
+                        protos[k].connection_lost(None)
         finally:
             sink = getattr(t, 'sink', None)
             if sink is not None and hasattr(sink, 'pump_task') and sink.pump_task:
                 sink.pump_task.cancel()
-                with contextlib.suppress(asyncio.CancelledError, Exception):
-                    await sink.pump_task
+            for task in asyncio.all_tasks():
+                if task is not asyncio.current_task():
+                    task.cancel()
+                    with contextlib.suppress(asyncio.CancelledError, Exception):
+                        await task
         return res
+
+    async def one_message_client(t, rec, cl):
+        chunks = client_chunks(cl)
+        per_chunk = []
+        msgs = []
+        is_text = []
+        for k, c in enumerate(chunks):
+            if transport_name == 'ws_server' and k in cl.get('text_before', []):
+                msgs.append('text frame')
+                is_text.append(True)
+            msgs.append(bytes(c))
+            is_text.append(False)
+        marks = []
+        err = None
+        try:
+            if transport_name == 'ws_server':
+                await t.on_connection(FakeWsConnection(msgs, rec, marks, cl.get('abrupt', False)))
+            else:
+                ctx_ = FakeNetsimContext(netsim_requests(msgs), rec, marks)
+                await t.source.StreamPackets(None, ctx_)
+        except Exception as e:           # noqa: BLE001
+            err = classify_exc(e)
+        marks.append(len(rec.packets))
+        # marks[k] = packets seen before message k was handed over
+        for k in range(len(msgs)):
+            if k + 1 < len(marks):
+                row = [['P', p] for p in rec.packets[marks[k]:marks[k + 1]]]
+            else:
+                row = None                  # never read (handler ended)
+            if is_text[k]:
+                if row:
+                    per_chunk.append([['TextProducedOutput']])
+                continue
+            per_chunk.append(row)
+        if err:
+            # attach to the last message that was read
+            read = [r for r in per_chunk if r is not None]
+            if read:
+                read[-1].append([err])
+            else:
+                per_chunk.append([[err]])
+        return [r for r in per_chunk if r is not None]
     return asyncio.run(main())
 
 
 def model_server_expr(transport_name, clients):
-    if transport_name == 'ws_server':
+    if transport_name in MESSAGE_SERVERS:
         # thread the shared parser through the connections
         lines = []
         outs = []
         prev = 'reset'
         for k, cl in enumerate(clients):
-            msgs = f'map Some ({coq_chunks(cl["descs"], cl["sizes"], cl.get("cut"))})'
-            lines.append(f"let '(s{k}, o{k}) := ws_connection packet_info {prev} ({msgs}) in")
+            ch = coq_chunks(cl["descs"], cl["sizes"], cl.get("cut"))
+            if transport_name == 'ws_server':
+                conn = f'ws_connection packet_info {prev} (map Some ({ch}))'
+            else:
+                conn = f'netsim_connection packet_info {prev} (map (fun c => (hd 0 c, tl c)) ({ch}))'
+            lines.append(f"let '(s{k}, o{k}) := {conn} in")
             outs.append(f'outs_digest o{k}')
             prev = f's{k}'
         return ' '.join(lines) + ' [' + '; '.join(outs) + ']'
-    parts = []
-    for cl in clients:
-        tail = '[Eof; Lost]' if cl.get('eof') else '[Lost]'
-        parts.append(f'[Connect] ++ map Data ({coq_chunks(cl["descs"], cl["sizes"], cl.get("cut"))}) ++ {tail}')
-    return f"outs_digest (snd (srv_run packet_info reset ({' ++ '.join(parts)})))"
+    binds = []
+    for k, cl in enumerate(clients):
+        binds.append(f'let d{k} := map Data ({coq_chunks(cl["descs"], cl["sizes"], cl.get("cut"))}) in')
+    # group the plan into segments of ops
+    segs = []
+    plan = server_plan(clients)
+    idx = 0
+    while idx < len(plan):
+        st = plan[idx]
+        if st[0] == 'C':
+            segs.append('[Connect]')
+            idx += 1
+        elif st[0] == 'E':
+            segs.append('[Eof]')
+            idx += 1
+        elif st[0] == 'L':
+            segs.append('[Lost]')
+            idx += 1
+        else:
+            k, j0 = st[1], st[2]
+            j1 = j0
+            while idx + 1 < len(plan) and plan[idx + 1][0] == 'D' and plan[idx + 1][1] == k:
+                idx += 1
+                j1 = plan[idx][2]
+            idx += 1
+            n = len(client_chunks(clients[k]))
+            if j0 == 0 and j1 == n - 1:
+                segs.append(f'd{k}')
+            else:
+                segs.append(f'firstn {j1 - j0 + 1} (skipn {j0} d{k})')
+    return ' '.join(binds) + f" outs_digest (snd (srv_run packet_info reset ({' ++ '.join(segs)})))"
 
 
 def split_server_model(transport_name, clients, mres):
     """model result -> per client per chunk outputs (errors dropped: invisible at a server
-    except for ws where the handler ends)"""
+    except for the message servers where the handler ends)"""
     res = []
-    if transport_name == 'ws_server':
+    if transport_name in MESSAGE_SERVERS:
         for per_chunk in mres:
             res.append(norm_model_outs(per_chunk))
         return res
-    it = iter(norm_model_outs(mres))
-    for cl in clients:
-        next(it)                                   # Connect
-        n = len(client_chunks(cl))
-        res.append([next(it) for _ in range(n)])
-        if cl.get('eof'):
-            next(it)
-        next(it)                                   # Lost
+    rows = norm_model_outs(mres)
+    res = [[None] * len(client_chunks(cl)) for cl in clients]
+    plan = server_plan(clients)
+    if len(rows) != len(plan):
+        return [['model op count', len(rows), len(plan)]]
+    for st, row in zip(plan, rows):
+        if st[0] == 'D':
+            res[st[1]][st[2]] = row
     return res
 
 
 def drop_errors(per_client):
     return [[[o for o in row if o[0] == 'P'] for row in pc] for pc in per_client]
+
+
+def message_sizes(descs, cutoff):
+    """netsim: one message per packet; a cut-off leaves a truncated last message"""
+    sizes = []
+    pos = 0
+    for d in descs:
+        n = len(seg_bytes(d))
+        if cutoff is not None and pos + n > cutoff:
+            break
+        sizes.append(n)
+        pos += n
+    return sizes
 
 
 def gen_server_case(rng, transport_name, nclients, psizes='small', errors=True):
@@ -583,11 +727,15 @@ def gen_server_case(rng, transport_name, nclients, psizes='small', errors=True):
             descs.append(['X', [invalid_type(rng)] + list(rng.bytes(rng.below(3)))])
         mode = rng.choice(['one', 'bytes', 'fine', 'mid', 'split1'])
         n = cl.get('cut', len(stream_of(descs)))
-        if any(d[0] == 'X' for d in descs):
+        if transport_name == 'android_netsim':
+            cl['sizes'] = message_sizes(descs, cl.get('cut'))
+        elif any(d[0] == 'X' for d in descs):
             cl['sizes'] = sizes_with_boundaries(rng, descs, mode)
         else:
             cl['sizes'] = random_sizes(rng, n, mode)
         cl['eof'] = rng.chance(1, 3)
+        if transport_name in ('tcp_server', 'unix') and not last and rng.chance(1, 4):
+            cl['late_lost'] = rng.choice([1, 2])   # its connection_lost arrives after the next connect
         if transport_name == 'ws_server':
             cl['abrupt'] = rng.chance(1, 3)
             nch = len(cut(cl['sizes'], stream_of(descs)[:n]))
@@ -601,12 +749,12 @@ def server_oracle(transport_name, clients, impl):
     leaks into it; packets are delivered exactly in the chunk that completes them"""
     for k, (cl, got) in enumerate(zip(clients, impl)):
         exp = expected_per_chunk(cl['descs'], cl['sizes'], cl.get('cut'),
-                                 stop_at_error=(transport_name == 'ws_server'))
+                                 stop_at_error=(transport_name in MESSAGE_SERVERS))
         if exp is None:
             continue
         exp_p = [[o for o in row if o[0] == 'P'] for row in exp]
         got_p = [[o for o in row if o[0] == 'P'] for row in norm_impl_outs(got)]
-        if transport_name == 'ws_server' and len(got_p) < len(exp_p):
+        if transport_name in MESSAGE_SERVERS and len(got_p) < len(exp_p):
             # messages after an error are not read; they must then be expected empty
             if any(exp_p[len(got_p):]):
                 return k, exp_p, got_p
@@ -923,7 +1071,7 @@ def _run_server(ctx, c, mres):
         model = split_server_model(tn, c['clients'], mres)
         m = drop_errors(model)
         i = drop_errors([norm_impl_outs(pc) for pc in impl])
-        if tn == 'ws_server':
+        if tn in MESSAGE_SERVERS:
             # an error ends the handler: model and implementation stop at the same message,
             # and the error is visible as the exception leaving on_connection
             m = model
@@ -1055,13 +1203,13 @@ def gen_cases(ctx, splitter_params):
         if len(seg_bytes(big)) <= 300:
             cases.append({'kind': 'splits', 'descs': [big], 'n': len(seg_bytes(big)), 'driver': 'parser'})
     # D. server life cycle
-    for i in range(ctx.n(120, 3000)):
-        tn = ['tcp_server', 'unix', 'ws_server'][i % 3]
+    for i in range(ctx.n(140, 3200)):
+        tn = SERVERS[i % 4]
         cases.append({'kind': 'server', 'transport': tn,
                       'clients': gen_server_case(rng, tn, rng.range(2, 4))})
     # D'. a client cut at EVERY byte position, followed by a clean client
-    for i in range(ctx.n(3, 30)):
-        tn = ['tcp_server', 'unix', 'ws_server'][i % 3]
+    for i in range(ctx.n(4, 32)):
+        tn = SERVERS[i % 4]
         descs = [gen_packet(rng, sizes='tiny') for _ in range(2)]
         nxt = [gen_packet(rng, sizes='tiny') for _ in range(2)]
         for k in range(len(stream_of(descs)) + 1):
@@ -1070,6 +1218,11 @@ def gen_cases(ctx, splitter_params):
             if tn == 'ws_server':
                 cl1.update(abrupt=(k % 3 == 0), text_before=[])
                 cl2.update(abrupt=False, text_before=[])
+            elif tn == 'android_netsim':
+                cl1['sizes'] = message_sizes(descs, k)
+                cl2['sizes'] = message_sizes(nxt, None)
+            else:
+                cl1['late_lost'] = k % 3
             cases.append({'kind': 'server', 'transport': tn, 'clients': [cl1, cl2]})
     # E. pull readers
     for i in range(ctx.n(150, 4000)):
@@ -1114,8 +1267,8 @@ def gen_cases(ctx, splitter_params):
 
 
 def exhaustive_cases(splitter_params):
-    """thorough tier: every stream of <= 3 packets over a small alphabet of packet shapes
-    x every split into <= 3 chunks; every cut-off position of a first client"""
+    """thorough tier, complete small scope over 6 packet shapes (all five types, empty and
+    non-empty bodies)"""
     shapes = [
         ['P', [4, 0x0e, 0], 0, 0],                 # event, empty
         ['P', [4, 0x3e, 2, 9, 8], 0, 0],           # event, 2 bytes
@@ -1125,44 +1278,83 @@ def exhaustive_cases(splitter_params):
         ['P', [3, 1, 0, 1, 0x77], 0, 0],           # SCO, 1 byte
     ]
     out = []
+    # every stream of <= 3 packets x every split into <= 3 chunks
     for n in (1, 2, 3):
         for combo in itertools.product(shapes, repeat=n):
             descs = [list(x) for x in combo]
             total = len(stream_of(descs))
-            if n == 3 and combo[0] is combo[1] is combo[2]:
-                continue
-            pts = range(total + 1)
-            for a in pts:
-                for b in pts:
-                    if b < a:
-                        continue
-                    if n == 3 and (a + b) % 3 != 0:
-                        continue             # thin out the largest class deterministically
+            for a in range(total + 1):
+                for b in range(a, total + 1):
                     out.append({'kind': 'push', 'descs': descs, 'sizes': [a, b - a],
                                 'driver': 'parser' if (a + b) % 2 == 0 else 'source', 'raising_sink': False})
+    # every stream of <= 2 packets x every split into <= 4 chunks
+    for n in (1, 2):
+        for combo in itertools.product(shapes, repeat=n):
+            descs = [list(x) for x in combo]
+            total = len(stream_of(descs))
+            for a in range(total + 1):
+                for b in range(a, total + 1):
+                    for c in range(b, total + 1):
+                        out.append({'kind': 'push', 'descs': descs, 'sizes': [a, b - a, c - b],
+                                    'driver': 'parser' if (a + c) % 2 == 0 else 'source', 'raising_sink': False})
+    # an invalid type byte (alone, or followed by junk that looks like a packet start) at every
+    # packet boundary of every stream of <= 2 packets, the chunk carrying it starting at every position
+    for n in (0, 1, 2):
+        for combo in itertools.product(shapes, repeat=n):
+            for at in range(n + 1):
+                for junk in ([], [4, 0x0e]):
+                    descs = [list(x) for x in combo[:at]] + [['X', [0x07] + junk]] + [list(x) for x in combo[at:]]
+                    before = len(stream_of(descs[:at]))
+                    xlen = 1 + len(junk)
+                    after = len(stream_of(descs[at + 1:]))
+                    for start in range(before + 1):
+                        for k in range(after + 1):
+                            sizes = ([start] if start else []) + [before - start + xlen] + ([k] if k else [])
+                            out.append({'kind': 'push', 'descs': descs, 'sizes': sizes,
+                                        'driver': 'parser' if (start + k) % 2 == 0 else 'source',
+                                        'raising_sink': False})
+    # every cut-off position of a first client x every pair of shapes x every server
     for i, (s1, s2) in enumerate(itertools.product(shapes, repeat=2)):
         d1 = [list(s1), list(s2)]
-        for tn in ('tcp_server', 'unix', 'ws_server'):
+        d2 = [list(s2), list(s1)]
+        for tn in SERVERS:
             for k in range(len(stream_of(d1)) + 1):
                 cl1 = {'descs': d1, 'cut': k, 'sizes': [k // 2], 'eof': False}
-                cl2 = {'descs': [list(s2), list(s1)], 'sizes': [1, 2], 'eof': False}
+                cl2 = {'descs': d2, 'sizes': [1, 2], 'eof': False}
                 if tn == 'ws_server':
                     cl1.update(abrupt=False, text_before=[])
                     cl2.update(abrupt=False, text_before=[])
+                elif tn == 'android_netsim':
+                    cl1['sizes'] = message_sizes(d1, k)
+                    cl2['sizes'] = message_sizes(d2, None)
+                else:
+                    cl1['late_lost'] = (i + k) % 3
                 out.append({'kind': 'server', 'transport': tn, 'clients': [cl1, cl2]})
+    # every truncation of every stream of <= 2 packets, for the three pull readers
+    for n in (0, 1, 2):
+        for combo in itertools.product(shapes, repeat=n):
+            descs = [list(x) for x in combo]
+            total = len(stream_of(descs))
+            for k in range(total + 1):
+                for reader in ('sync', 'buffered', 'async'):
+                    out.append({'kind': 'pull', 'reader': reader, 'descs': descs, 'cut': k,
+                                'sizes': [k // 3, k // 2] if reader == 'async' else []})
+    # USB: every pair of endpoint packets x every split into <= 3 chunks
     for ty in (4, 2, 3):
         if ty not in splitter_params:
             continue
         eshapes = [s[1][1:] for s in shapes if s[1][0] == ty]
         pre, ls = SPEC[ty]
         eshapes.append(list(range(1, pre + 1)) + list((3).to_bytes(ls, 'little')) + [7, 8, 9])
-        for combo in itertools.product(eshapes, repeat=2):
-            descs = [['P', list(x), 0, 0] for x in combo]
-            total = len(stream_of(descs))
-            for a in range(total + 1):
-                for b in range(a, total + 1):
-                    out.append({'kind': 'usb', 'ty': ty, 'params': list(splitter_params[ty]), 'descs': descs,
-                                'sizes': [a, b - a], 'via': 'splitter'})
+        eshapes.append(list(range(1, pre + 1)) + list((0).to_bytes(ls, 'little')))
+        for n in (1, 2, 3):
+            for combo in itertools.product(eshapes, repeat=n):
+                descs = [['P', list(x), 0, 0] for x in combo]
+                total = len(stream_of(descs))
+                for a in range(total + 1):
+                    for b in range(a, total + 1):
+                        out.append({'kind': 'usb', 'ty': ty, 'params': list(splitter_params[ty]), 'descs': descs,
+                                    'sizes': [a, b - a], 'via': 'source' if (a + b) % 7 == 0 else 'splitter'})
     return out
 
 
@@ -1175,8 +1367,9 @@ def splitter_params_from_gen(ctx):
 
 
 def regen(ctx):
-    from translate import c02_tables
+    from translate import c02_shape, c02_tables
     c02_tables.regen(ctx)
+    c02_shape.regen(ctx)
 
 
 def run(ctx):
@@ -1185,11 +1378,15 @@ def run(ctx):
         'lengths) x chunkings (one call, 1-byte chunks, every single split point, random fine/mid/coarse cuts, empty '
         'chunks), a third with invalid type bytes + junk injected at packet boundaries, fed to the real PacketParser / '
         'StreamPacketSource; garbage streams (correspondence only). server: 2-4 clients on the real tcp_server / unix / '
-        'ws_server protocol objects, each cut at a random (and, for short streams, every) byte position. pull: '
+        'ws_server protocol objects and the android_netsim gRPC servicer (fake context, real protobuf messages), each '
+        'cut at a random (and, for short streams, every) byte position, for tcp/unix also with the previous '
+        'client\'s connection_lost delivered after the next connection_made / first data. pull: '
         'PacketReader over BytesIO / BufferedReader and AsyncPacketReader over a StreamReader fed chunk by chunk, on '
         'whole, truncated and invalid streams. usb: the three real splitter classes and UsbPacketSource.transfer_callback. '
-        'Thorough adds every stream of <=3 packets over 6 shapes x every split into <=3 chunks, and every cut-off '
-        'position. A case is non-trivial when a chunk boundary or cut-off falls strictly inside a packet (push/server/'
+        'Thorough adds the complete small scope over 6 packet shapes: every stream of <=3 packets x every split into '
+        '<=3 chunks, <=2 packets x <=4 chunks, an invalid type byte at every boundary x every chunk start, every '
+        'cut-off position x every pair x all four servers, every truncation for the three readers, every <=3 endpoint '
+        'packets x <=3 chunks for the three splitters. A case is non-trivial when a chunk boundary or cut-off falls strictly inside a packet (push/server/'
         'usb), an error is injected, or at least one packet is returned (pull); distinct by content.')
     ctx.assumptions += [
         'asyncio delivers connection_made before a connection\'s data and connection_lost after it (the socket layer '
@@ -1246,6 +1443,8 @@ def search(ctx):
     """directed search after a broken proof / correspondence: short streams, every split"""
     params = splitter_params_from_gen(ctx)
     for c in exhaustive_cases(params):
+        if c['kind'] == 'push' and len(c['descs']) > 2:
+            continue
         run_case(ctx, c, None)
         if ctx.violations:
             return
